@@ -130,8 +130,12 @@ impl Reference {
     }
 }
 
+/// "compared after clamping mate-range scores": the engine has three mate-score families, `MIN + 100 | 2000 | 3000 +
+/// distance` (true mates, king captures seen by the depth-1 node, king captures seen by the capture extension).
+/// Everything within 4000 of either limit is mate range; distances and families inside it are not compared (the value
+/// of a king-less node is window-dependent by construction: stand-pat is tested first).
 pub fn clamp(x: i32) -> i32 {
-    x.max(MIN + 1000).min(MAX - 1000)
+    x.max(MIN + 4000).min(MAX - 4000)
 }
 
 /// Optimised search, table-less, through the engine's stable entry point (the iterative-deepening driver also used by
